@@ -171,6 +171,8 @@ def _stmts(draw, ctx, depth, helper_params, min_size=1, max_size=4, need_wait_fi
 def _stmts_inner(draw, ctx, depth, helper_params, n, out, prof):
     for _ in range(n):
         kinds = ["wait", "wait", "send", "send", "assign"]
+        if prof.get("pass", True) and depth < prof.get("_top_depth", 99):
+            kinds += ["pass"]
         if prof.get("actions", True):
             kinds += ["startact", "awaitact"]
             if prof.get("groups", True):
@@ -245,6 +247,8 @@ def _stmts_inner(draw, ctx, depth, helper_params, n, out, prof):
             s = {"k": "if", "var": var, "val": draw(st.integers(0, 2)), "then": draw(_stmts(ctx, depth - 1, helper_params, 1, 3))}
             if draw(st.booleans()):
                 s["else"] = _no_leading_if(draw(_stmts(ctx, depth - 1, helper_params, 1, 2)))
+                if prof.get("pass", True) and draw(st.integers(0, 5)) == 0:
+                    s["else"] = [{"k": "pass"}]  # an else branch that is empty after expansion
             out.append(s)
         elif k == "while":
             var = draw(st.sampled_from(VARS))
